@@ -102,6 +102,12 @@ def gen_cases(tier, seed):
     for kind in ('png', 'pbm', 'pam', 'ppm', 'xbm', 'xpm'):
         for s in (0.5, 0.99, 0.1):
             cases.append({'kind': kind, 'version': 1, 'seed': 1, 'kw': {'scale': s}, 'expect': 'refuse'})
+        # scales that are exact non-float numbers, a hair below an integer: truncated like every non-integer scale (a
+        # detour through float would round them up)
+        for s in ({'$frac': [2 ** 60 - 1, 2 ** 59]}, {'$dec': '2.99999999999999999999'}, {'$frac': [5, 2]}, {'$dec': '3.5'}, {'$frac': [7, 1]}):
+            cases.append({'kind': kind, 'version': rng.choice([1, 'M2', 3]), 'seed': rng.randrange(1 << 30), 'kw': {'scale': s, 'border': rng.choice([0, 1, None])}})
+        for s in ({'$dec': '0.99999999999999999999'}, {'$frac': [10 ** 20 - 1, 10 ** 20]}):
+            cases.append({'kind': kind, 'version': 1, 'seed': 1, 'kw': {'scale': s}, 'expect': 'refuse'})
     rng.shuffle(cases)
     return cases
 
@@ -135,11 +141,15 @@ def render(q, case):
 
 def run_cases(cases, rec, tier='quick', seed='0'):
     monitors.start_reach()
+    from vmon.props.c11 import real_number
     for case in cases:
         rec.case = case
         rec.count('evaluations')
         q = make_symbol(case)
         kind = case['kind']
+        if any(isinstance(v, dict) for v in case['kw'].values()):
+            case = dict(case, kw={k: real_number(v) for k, v in case['kw'].items()})     # Fraction / Decimal stand-ins
+            rec.count('exact_non_float_scales')
         try:
             data = render(q, case)
         except ValueError as ex:
